@@ -12,6 +12,13 @@ CHECKS = {
   design="DESIGN.md section 4, C20"),
 }
 
+CHECKS["C15"] = dict(
+  category="exploration",
+  technique="boundary-grid enumeration (all numbers, all same-kind ordered pairs, literal grid) + rapid random generation against math/big exact arithmetic",
+  text="Every number of a boundary grid (10^k, 2^31, 2^32, 2^63, 2^64 neighbourhoods x sign x fraction-digits 0..18) is printed, parsed back, converted and compared pairwise (all ordered pairs incl. mixed fraction digits in the thorough tier) against big-integer arithmetic; literals with 0..20 and 254..513 fraction digits around the 64-bit limits go through ParseInt/ParseDecimal and through module text. The grid is complete for the overflow and precision boundaries; values between grid points are sampled by rapid.",
+  note="Trusts math/big. Mixed integer/decimal comparison, FromFloat and non-decimal literals are outside the claim; a literal whose excess fraction digits are all zero may be accepted or rejected.",
+  design="DESIGN.md section 4, C15")
+
 PENDING = {}
 
 def main():
